@@ -130,6 +130,17 @@ def is_scaling_cell(prog, f, e, stored_only=False):
     model struct (possibly through a list ->d[k]), or a local filled by a column-spread routine"""
     e = strip(e)
     cont = None
+    if e.get('kind') == 'DeclRefExpr' and fe.is_float_type(e) and e['referencedDecl'].get('kind') == 'VarDecl':
+        # a local that only ever holds a scaling cell  (const double sf = model->colscaling->d[k]->data[j];)
+        did = e['referencedDecl']['id']
+        defs = []
+        for n in walk(f.body or {}):
+            if n.get('kind') == 'VarDecl' and n.get('id') == did and kids(n):
+                defs.append(kids(n)[-1])
+            if n.get('kind') in ('BinaryOperator', 'CompoundAssignOperator') and n.get('opcode', '').endswith('=') and n.get('opcode') not in ('==', '!=', '<=', '>=') \
+                    and fe.ref_id(kids(n)[0]) == did:
+                defs.append(kids(n)[1] if n.get('opcode') == '=' else None)
+        return bool(defs) and all(d is not None and strip(d).get('kind') != 'DeclRefExpr' and is_scaling_cell(prog, f, d, stored_only) for d in defs)
     if e.get('kind') == 'ArraySubscriptExpr':
         b = strip(kids(e)[0])
         if b.get('kind') == 'MemberExpr' and b.get('name') == 'data':
